@@ -335,6 +335,52 @@ Definition src_monotonic_factorization : list string :=
    "end";
    "return (i + 1, codes, labels[:n_labels])"].
 
+(* factorization: factorize_2d *)
+Definition src_factorize_2d : list string :=
+  ["def factorize_2d(*vals, sort: bool=False, factorize_in_parallel: bool=True, use_dict_limit: int=500000000)";
+   "if factorize_in_parallel";
+   "factored = parallel_map(lambda x: factorize_1d(x, sort=False), list(zip(vals)))";
+   "else";
+   "factored = [factorize_1d(x, sort=False) for x in vals]";
+   "end";
+   "codes_list, labels = zip(*factored)";
+   "shape = list(map(len, labels))";
+   "code_arr = np.vstack(codes_list).T";
+   "def combine(code_arr, shape)";
+   "code_weights = np.cumprod(shape)";
+   "code_weights, cartesian_product_size = (code_weights[-1] // code_weights, code_weights[-1])";
+   "if cartesian_product_size < use_dict_limit";
+   "code_tracker = np.full(cartesian_product_size, -1, dtype='int32')";
+   "else";
+   "code_tracker = nb.typed.Dict.empty(nb.types.int64, nb.types.int64)";
+   "end";
+   "return _combine_factorizations(code_arr, code_weights=code_weights, code_tracker=code_tracker)";
+   "end";
+   "leading = None";
+   "while len(shape) > 2 and math.prod(map(int, shape)) >= MAX_CARTESIAN_PRODUCT";
+   "folded_codes, folded_uniques = combine(code_arr[:, :2].copy(), shape[:2])";
+   "if leading is None";
+   "leading = folded_uniques";
+   "else";
+   "leading = np.column_stack([leading[folded_uniques[:, 0]], folded_uniques[:, 1]])";
+   "end";
+   "code_arr = np.column_stack([folded_codes, code_arr[:, 2:]])";
+   "shape = [len(folded_uniques), *shape[2:]]";
+   "end";
+   "combined_codes, uniques = combine(code_arr, shape)";
+   "if leading is not None";
+   "uniques = np.column_stack([leading[uniques[:, 0]], uniques[:, 1:]])";
+   "end";
+   "multi_index = pd.MultiIndex(codes=list(uniques.T), levels=labels, names=[get_array_name(lvl) for lvl in labels])";
+   "if sort and len(multi_index) > 0";
+   "argsort = multi_index.argsort()";
+   "null = combined_codes == -1";
+   "combined_codes = np.argsort(argsort)[combined_codes]";
+   "combined_codes[null] = -1";
+   "multi_index = multi_index[argsort]";
+   "end";
+   "return (combined_codes, multi_index)"].
+
 (* core: GroupBy._build_group_sorted_indexer_numba *)
 Definition src_build_group_sorted_indexer : list string :=
   ["@staticmethod @nb.njit(nogil=True, cache=True) def _build_group_sorted_indexer_numba(group_key_list: NumbaList[np.ndarray], group_counts: np.ndarray, key_map: Optional[np.ndarray]=None, mask: Optional[np.ndarray]=None)";
